@@ -9,3 +9,39 @@ check(
     "model-based stateful property testing (generated request histories vs reference model, collect-then-ddmin shrinking)",
     "DESIGN.md section 3 C01",
 )
+
+check(
+    "C02",
+    "exploration",
+    "Generated histories; after every step the ETag of each member of the touched collections is read through all seven views (PUT answer, GET, HEAD, PROPFIND, multiget, query, sync) and must be one value, and ETag<->bytes must be a bijection per path over the whole history (both directions asserted).",
+    "Trusted: harness HTTP client and multistatus parser; ETag construction is not assumed. Hash collisions are unreachable by generation.",
+    "stateful property testing with a cross-view differential oracle and a history invariant (ETag<->bytes bijection)",
+    "DESIGN.md section 3 C02",
+)
+
+check(
+    "C03",
+    "exploration",
+    "Three engines: generated conditional histories against an RFC 7232 strong-comparison model, an enumerated grid (resource state x 49 header forms x method x front end x back end; sampled in quick, exhaustive in thorough) and store-API histories with etag arguments on four back ends. A failed precondition must be 412/304 and change nothing (C01 audit after every step).",
+    "Trusted: the precondition evaluator in xv/machine.py (cond_truth). Malformed/weak header values accept either 'not matching' or 400.",
+    "model-based property testing + exhaustive finite grid (differential against an RFC 7232 reference evaluator)",
+    "DESIGN.md section 3 C03",
+)
+
+check(
+    "C06",
+    "exploration",
+    "Generated create/overwrite/delete/restart histories over small name and UID pools (case variants, spaces, escapes, non-ASCII, missing UID) over HTTP (PUT, POST; tree and bare git) and the store API (tree, bare, memory, vdir): a write is refused for a UID conflict iff another live member holds the UID (both directions), and live UIDs stay pairwise distinct after every step.",
+    "Trusted: the independent UID extractor (first component carrying UID, TEXT-unescaped, exact comparison).",
+    "model-based stateful property testing (two-sided refusal oracle + uniqueness invariant)",
+    "DESIGN.md section 3 C06",
+)
+
+check(
+    "C08",
+    "exploration",
+    "Generated histories over several collections; the four tag views are read after every step and compared all-pairs per collection incarnation against the model's member map, write counter and metadata epoch (different content => different tag; no acknowledged write => same tag; git: same content and epoch => same tag).",
+    "Trusted: the model's notion of 'acknowledged write to this collection'. Sub-collections are not members for the purpose of the tag.",
+    "stateful property testing with an all-pairs history invariant",
+    "DESIGN.md section 3 C08",
+)
